@@ -324,7 +324,8 @@ class BeckeRTransform(BaseTransform):
         np.ndarray(N,)
             One dimensional array in :math:`[-1, 1]`\.
         """
-        return (r - self._rmin - self._R) / (r - self._rmin + self._R)
+        # same function as (r - rmin - R) / (r - rmin + R), but 1 (not inf/inf = nan) at r = inf
+        return 1 - 2 * self._R / (r - self._rmin + self._R)
 
     def deriv(self, x: np.ndarray):
         r"""Compute the first derivative of Becke transformation.
@@ -1902,7 +1903,8 @@ class HandyRTransform(BaseTransform):
         tmp_ri = (r - self._rmin) ** (1 / self._m)
         tmp_R = self._R ** (1 / self._m)
 
-        return (tmp_ri - tmp_R) / (tmp_ri + tmp_R)
+        # same function as (tmp_ri - tmp_R) / (tmp_ri + tmp_R), but 1 (not inf/inf = nan) at r = inf
+        return 1 - 2 * tmp_R / (tmp_ri + tmp_R)
 
     def deriv(self, x: np.ndarray):
         r"""Compute the first derivative of Handy transformation.
